@@ -278,6 +278,8 @@ def main(argv):
         if native_report:
             for b in native_report.get("bounded", []):
                 bounded.append(b)
+                n_bounded_ob += b.get("obligations", 0)
+                n_bounded_dis += b.get("discharged", 0)
             for v in native_report.get("violations", []):
                 violations.append((None, v))
             for k in native_report.get("known", []):
